@@ -54,6 +54,13 @@ async def _run(events, consumers):
         for ev in events:
             if ev[0] == 0:
                 reader.feed_data(G.enc(kind, 0x56, 0x45, ev[1], 5, payload))
+            elif ev[0] == 4:
+                # the connection drops and is re-established (as the reconnect routine does) - possibly while the class is loading
+                reader.feed_eof()
+                await PI.settle(20)
+                reader = asyncio.StreamReader()
+                writer = PI.FakeWriter()
+                proto.connection_established(reader, writer)
             elif ev[0] == 3:
                 await asyncio.sleep(ev[1])          # time passes (the class loading may take seconds on a cold or busy system)
             elif ev[0] == 1:
@@ -135,6 +142,13 @@ class C10(Prop):
                 for wait in (1, 3, 4):       # (the line must not stay silent for the 10 s read timeout: that is a connection loss, C11)
                     evs = [[0, 1], [2, 100]] + [[3, wait]] + [[0, i + 2] for i in range(k - 1)] + [[3, wait], [1, 0], [0, k + 1], [2, 101]]
                     cases.append({"kind": "slow-loading", "events": evs, "consumers": consumers})
+        # a reconnect while the class is loading: frames of the old and of the new connection, one object
+        for consumers in (1, 2, 3):
+            for before in (1, 2):
+                for after in (1, 2, 3):
+                    evs = [[0, i + 1] for i in range(before)] + [[2, 100], [4]] + [[0, before + j + 1] for j in range(after)] + \
+                          [[1, 0], [0, before + after + 1], [2, 101]]
+                    cases.append({"kind": "reconnect-while-loading", "events": evs, "consumers": consumers})
         self.exhaustive = True
         return cases
 
@@ -146,7 +160,7 @@ class C10(Prop):
 
     def model_many(self, cases):
         # (the passing of time is not an event of the model: nothing in it depends on how long the loading takes)
-        res = model.call_many("drun", [[True, [e[:2] for e in c["events"] if e[0] != 3]] for c in cases])
+        res = model.call_many("drun", [[True, [e[:2] for e in c["events"] if e[0] not in (3, 4)]] for c in cases])
         return [[r[0], r[1], [list(p) for p in r[2]], sorted(list(p) for p in r[3]), r[4]] for r in res]
 
     def obs(self, c, b):
